@@ -17,6 +17,14 @@ def build_cases(rng, tier):
             opts = ["-Cf"]
         c = streamprog.gen_stream_case(r, "l%d" % i, ({'lineno', 'trail'} if i % 2 else {'lineno'}) if i % 3 else {'lineno', 'edit', 'trail'}, backend=be, flex_opts=opts,
                                        lineno=(i % 7 != 0))
+        if i % 5 in (1, 3):
+            # text kept by yymore() that holds newlines, with %array (i % 5 == 1) and %pointer: the count must not run over the
+            # kept text again
+            be2 = r.weighted([('nr', 4), ('r', 3), ('c99', 2)])
+            c = streamprog.gen_stream_case(r, "l%d" % i, {'lineno', 'edit', 'more'}, backend=be2,
+                                           flex_opts=r.pick([[], ["-Cf"], ["-Ce"], ["-Cm"], ["-B"]]), lineno=True)
+            if i % 5 == 1:
+                c['extra_options'] = ["array"]
         cases.append(c)
     return cases
 
